@@ -49,6 +49,10 @@ const PREAMBLES: &[&str] = &[
     "[package.metadata.other-tool]\ndefault = \"zz\"\nlocales = [\"zz\"]\n",
     "# a comment mentioning locales = [\"xx\"] and default = \"xx\"\n",
     "[dependencies.leptos_i18n]\nversion = \"0.5\"\nfeatures = [\"json_files\"]\n",
+    // the section header as text: in a commented-out former section, in a comment sentence, in a string
+    "# [package.metadata.leptos-i18n]\n# default = \"zz\"\n# locales = [\"zz\"]\n",
+    "# the translations are configured in [package.metadata.leptos-i18n] below\n",
+    "[package.metadata.docs]\nnote = \"see the [package.metadata.leptos-i18n] table\"\n",
 ];
 
 const TRAILERS: &[&str] = &[
